@@ -31,12 +31,12 @@ import (
 // case data (plain JSON)
 
 type w13Conn struct {
-	Kind   string   `json:"kind"`             // binary | text | raw (what the generator intended; informational)
-	Hex    string   `json:"hex"`              // the byte stream the client sends
-	Chunks []int    `json:"chunks,omitempty"` // sizes of the reads the server sees, applied cyclically; empty = one read
+	Kind   string   `json:"kind"`                // binary | text | raw (what the generator intended; informational)
+	Hex    string   `json:"hex"`                 // the byte stream the client sends
+	Chunks []int    `json:"chunks,omitempty"`    // sizes of the reads the server sees, applied cyclically; empty = one read
 	Linger int      `json:"linger_ms,omitempty"` // pause after the connection ended, before the probe (lets ms / 1 s timers fire)
-	Note   []string `json:"note,omitempty"`   // rendering of the structured commands (before mutation)
-	Mut    []string `json:"mut,omitempty"`    // mutations applied to the rendered stream
+	Note   []string `json:"note,omitempty"`      // rendering of the structured commands (before mutation)
+	Mut    []string `json:"mut,omitempty"`       // mutations applied to the rendered stream
 }
 
 type w13Case struct {
@@ -337,7 +337,9 @@ type w13Instance struct {
 	frozen    int
 }
 
-func w13NewInstance() (*w13Instance, error) {
+// w13NewInstance builds the instance in two steps: NewSLock (which replaces the package global
+// defaultServerProtocol) runs inside "swap", the rest (AOF files, db 0) outside.
+func w13NewInstance(swap func(create func())) (*w13Instance, error) {
 	base := os.Getenv("VERIF_DATADIR")
 	if base == "" {
 		base = os.TempDir()
@@ -350,8 +352,13 @@ func w13NewInstance() (*w13Instance, error) {
 		LogBufferFlushTime: 1, DataDir: dir, DBFastKeyCount: 4096, DBConcurrent: 2, DBLockAofTime: 1, DBLockAofParcentTime: 0.3,
 		AofQueueSize: 4096, AofFileRewriteSize: 67174400, AofFileBufferSize: 4096, AofRingBufferSize: 65536, AofRingBufferMaxSize: 1 << 22,
 		SubscribeEnabled: true}
-	slock := NewSLock(cfg, w13Logger())
-	server := NewServer(slock)
+	logger := w13Logger()
+	var slock *SLock
+	var server *Server
+	swap(func() {
+		slock = NewSLock(cfg, logger)
+		server = NewServer(slock)
+	})
 	if err := slock.Init(server); err != nil {
 		return nil, fmt.Errorf("init leader: %v", err)
 	}
@@ -393,12 +400,15 @@ func (in *w13Instance) serve(conn net.Conn) *w13Handler {
 // global defaultServerProtocol, and ProxyServerProtocol.ProcessLockResultCommandLocked reads that
 // global several times between locking and unlocking slock.clientsGlock ("unlock of unlocked mutex"
 // if the global changes in between - an artefact of running several instances in one process, not a
-// defect of the server). Therefore a finished instance is frozen (all its shard mutexes are held, so
-// none of its timer / executor goroutines can reach that code) until the next instance exists; after
-// the switch its proxies no longer compare equal to the global and never enter that block again.
+// defect of the server). Therefore the finished instance is frozen (all its shard mutexes are held, so
+// none of its timer / executor goroutines can reach that code) for the instant in which NewSLock
+// replaces the global; after the switch its proxies no longer compare equal to the global and never
+// enter that block again.
 var (
 	w13SwitchMu sync.Mutex
 	w13Prev     *w13Instance
+	// instances whose goroutines have not ended yet: each holds several MB per db for about a second
+	w13Closing = make(chan struct{}, 48)
 )
 
 func w13NextInstance() (*w13Instance, error) {
@@ -406,18 +416,41 @@ func w13NextInstance() (*w13Instance, error) {
 	defer w13SwitchMu.Unlock()
 	prev := w13Prev
 	w13Prev = nil
-	if prev != nil && prev.frozen > 0 {
-		time.Sleep(300 * time.Microsecond) // let sections that run after the shard mutex was released finish
-	}
-	in, err := w13NewInstance()
+	in, err := w13NewInstance(func(create func()) {
+		// the previous instance is frozen only for the instant in which the global changes: holding
+		// its shard mutexes for longer makes its sweep goroutines queue up behind them
+		if prev != nil && !prev.dirty {
+			prev.freeze()
+			if prev.frozen > 0 {
+				time.Sleep(100 * time.Microsecond) // sections that run after the shard mutex was released
+			}
+		}
+		create()
+		if prev != nil {
+			prev.unfreeze()
+		}
+	})
 	if prev != nil {
-		prev.unfreeze()
 		prev.close()
 	}
 	return in, err
 }
 
-// retire ends the bystander connection, freezes the instance and parks it until the next one exists.
+// w13TooManyDbs: a LOCK creates the db it names, and every db costs several MB of queues here (about
+// 60 MB with the default configuration). A stream that names many databases is a resource question,
+// not a malformed-input question; cases that can touch more than eight are left out (counted).
+func w13TooManyDbs(b []byte) bool {
+	seen := map[byte]bool{}
+	for i := 0; i+21 <= len(b); i++ {
+		if b[i] == 0x56 && b[i+1] == 0x01 && (b[i+2] == 1 || b[i+2] == 8) {
+			seen[b[i+20]] = true
+		}
+	}
+	n := len(seen) + bytes.Count(bytes.ToUpper(b), []byte("SELECT"))
+	return n > 8
+}
+
+// retire ends the bystander connection and parks the instance until the next one exists.
 func (in *w13Instance) retire() {
 	if in.by != nil {
 		in.by.finish()
@@ -440,15 +473,12 @@ func (in *w13Instance) retire() {
 				db.status = STATE_CLOSE
 			}
 		}
-	} else {
-		in.freeze()
 	}
 	w13SwitchMu.Lock()
 	old := w13Prev
 	w13Prev = in
 	w13SwitchMu.Unlock()
 	if old != nil { // cannot happen with one case at a time; be safe
-		old.unfreeze()
 		old.close()
 	}
 }
@@ -545,10 +575,13 @@ func (in *w13Instance) unfreeze() {
 //   - SLock.updateState(STATE_CLOSE) flips every db while holding all shard mutexes (no request is in
 //     flight at that moment) and drains the AOF / subscribe queues; the per-db timer loops then end;
 //   - executors, AOF channels and subscribe channels are told to end; files and managers are closed.
+//
 // Dirty instances (a handler panicked or is stuck: shard mutexes may be held for ever) only get their
 // timer loops stopped where the shard mutexes can be taken with TryLock.
 func (in *w13Instance) close() {
+	w13Closing <- struct{}{} // blocks while too many instances are still winding down
 	go func() {
+		defer func() { <-w13Closing }()
 		defer func() { _ = os.RemoveAll(in.dir) }()
 		dbs := in.allDbs()
 		if in.dirty {
@@ -590,6 +623,17 @@ func (in *w13Instance) close() {
 				}
 				in.slock.admin.Close()
 				in.slock.aof.Close()
+			}()
+			// Whatever still refers to the instance (goroutines parked on the dead mutex), its bulk is
+			// dropped after everything that can still run has ended: several MB of queues per db.
+			go func() {
+				time.Sleep(4 * time.Second)
+				for _, db := range dbs {
+					db.fastLocks, db.locks, db.freeLockManagers, db.freeLocks = nil, nil, nil, nil
+					db.timeoutLocks, db.expriedLocks, db.longTimeoutLocks, db.longExpriedLocks = nil, nil, nil, nil
+					db.millisecondTimeoutLocks, db.millisecondExpriedLocks, db.waitRemoveLockManagers = nil, nil, nil
+					db.freeLongWaitQueues, db.freeMillisecondWaitQueues = nil, nil
+				}
 			}()
 			return
 		}
